@@ -25,7 +25,16 @@ func init() {
 	plans["C01"] = &Plan{
 		Items: fnItems(nil,
 			"hotline.(*Field).Read", "hotline.NewField", "hotline.(*Field).Write", "hotline.FieldScanner",
-			"hotline.transactionScanner", "hotline.(*Field).DecodeInt", "hotline.(*User).Read", "hotline.EncodeString",
+			"hotline.transactionScanner", "hotline.(*Field).DecodeInt", "hotline.EncodeString",
+			"hotline.(*User).Read", "hotline.(*User).Write",
+			"hotline.(*FileNameWithInfo).Read", "hotline.(*FileNameWithInfo).Write",
+			"hotline.(*FlatFileInformationFork).Read", "hotline.(*FlatFileInformationFork).DataSize", "hotline.(*FlatFileInformationFork).Size",
+			"hotline.(*FlatFileInformationFork).ReadNameSize", "hotline.(*FlatFileInformationFork).SetComment",
+			"hotline.(*FlatFileInformationFork).UnmarshalBinary", "hotline.(*FlatFileInformationFork).Write",
+			"hotline.(*flattenedFileObject).Read", "hotline.(*FileHeader).Read",
+			"hotline.(*NewsArtList).Read", "hotline.(*NewsArtListData).Read", "hotline.(*TrackerRegistration).Read",
+			"hotline.(*handshake).Write", "hotline.(*handshake).Valid", "hotline.(*transfer).Write",
+			"hotline.(*FilePathItem).Write", "hotline.fileItemScanner", "hotline.NewForkInfoList",
 		),
 		Decided: []string{
 			"encoder Read methods: every call returns the next bytes of the wire layout (cursor contract), for every buffer size",
